@@ -27,11 +27,11 @@ def one_shot(kind, samples, data, precision):
          'MIA': lambda precision: scared.MIADistinguisher(bin_edges=np.linspace(-12, 24, 7), partitions=range(9), precision=precision)}[kind](precision=precision)
     d.update(samples, data); return d.compute()
 
-def build(kind, attack, conv=None):
+def build(kind, attack, conv=None, precision='float64'):
     import scared
     sf, rsf = sfun()
     model = scared.Monobit(0) if kind == 'DPA' else scared.HammingWeight()
-    kw = dict(precision='float64')
+    kw = dict(precision=precision)
     if kind in ('ANOVA', 'NICV', 'SNR', 'MIA'): kw['partitions'] = range(9)
     if kind == 'MIA': kw['bin_edges'] = np.linspace(-12, 24, 7)
     if attack:
@@ -62,11 +62,11 @@ def run_case(kind, attack, ns, bsz, frame, pps, conv=None):
     finally:
         scared.set_batch_size(None)
 
-def conv_case(kind, ns, bsz, step):
+def conv_case(kind, ns, bsz, step, precision='float64'):
     import scared
     scared.set_batch_size(bsz)
     try:
-        a = build(kind, True, step); plain = build(kind, True, None)
+        a = build(kind, True, step, precision); plain = build(kind, True, None, precision)
         pts_all = []; S = []; PT = []
         for r, n in enumerate(ns):
             ths, s, pt = mk_ths(n, seed=200 + r)
@@ -75,15 +75,15 @@ def conv_case(kind, ns, bsz, step):
         if not np.allclose(a.results, plain.results, rtol=1e-8, atol=1e-10, equal_nan=True) or not np.allclose(a.scores, plain.scores, rtol=1e-8, atol=1e-10, equal_nan=True): return 'results/scores changed by convergence_step (beyond batch-split rounding)'
         ct = a.convergence_traces
         if ct is None or ct.shape[-1] < 1: return 'no convergence column'
-        if not np.array_equal(ct[..., -1], a.scores, equal_nan=True): return 'last column != final scores'
+        if not np.array_equal(ct[..., -1], a.scores, equal_nan=True): return 'last column != final scores (precision %s, scores %s, convergence traces %s)' % (precision, a.scores.dtype, ct.dtype)
         # each column must be the score of SOME prefix; recover the prefix sizes greedily and check monotonic / step
         pts = []
         for j in range(ct.shape[-1]):
             found = None
             for P in range((pts[-1] + 1) if pts else 1, total + 1):
-                f = build(kind, True, None); data = f.model(f.selection_function(plaintext=PT[:P])); f.update(S[:P], data); f.compute_results() if False else None
+                f = build(kind, True, None, precision); data = f.model(f.selection_function(plaintext=PT[:P])); f.update(S[:P], data); f.compute_results() if False else None
                 res = f.compute(); sc = f.discriminant(res)
-                if np.allclose(sc, ct[..., j], rtol=1e-9, atol=1e-12, equal_nan=True): found = P; break
+                if np.allclose(sc, ct[..., j], rtol=1e-9 if precision == 'float64' else 1e-4, atol=1e-12 if precision == 'float64' else 1e-6, equal_nan=True): found = P; break
             if found is None: return 'column %d is not the score of any later prefix' % j
             pts.append(found)
         if pts[-1] != total: return 'last point %d != %d' % (pts[-1], total)
@@ -156,6 +156,12 @@ def bounded(prop, seed, tier, quick_only=False):
                 except Exception as e: r = 'raises %r' % (e,)
                 if r: fails.append(dict(kind='run', function='scared.analysis.base::BaseAttack._batch_loop_compute', klass=kind + 'Attack', ns=ns, batch=b, step=s, detail=r))
                 if quick_only and ev > 30: break
+        # an attack whose scores are wider than its precision (DPA divides by integer counters: float64 scores under float32 precision)
+        for (n, s_, b) in ((7, 3, 3), (12, 5, 1), (5, 20, 12)):
+            ev += 1
+            try: r = conv_case('DPA', [n], b, s_, 'float32')
+            except Exception as e: r = 'raises %r' % (e,)
+            if r: fails.append(dict(kind='run', function='scared.analysis.base::BaseAttack._compute_convergence_traces', klass='DPAAttack', ns=[n], batch=b, step=s_, detail=r))
         return dict(evaluations=ev, failures=len(fails), failing=fails[:5], function='convergence traces vs fresh attacks on prefixes, real CPA/SNR attacks', bound='(N, step, batch) grid %d cases, two consecutive runs for a third of them' % len(grid))
 
 if __name__ == '__main__':
